@@ -918,10 +918,16 @@ fn run_case(c: &Case) -> Res {
     // ---- write side, independent
     let out_packets = find_packets(c.family, &out);
     let mut out_props = Vec::new();
+    let mut per_packet: Vec<Vec<(String, String, &'static str)>> = Vec::new();
     let mut out_parse_err = None;
-    match props_of_packets(&out_packets) {
-        Ok(p) => out_props = p,
-        Err(e) => out_parse_err = Some(e),
+    for p in &out_packets {
+        match props_of_packets(std::slice::from_ref(p)) {
+            Ok(pp) => {
+                out_props.extend(pp.clone());
+                per_packet.push(pp);
+            }
+            Err(e) => out_parse_err = Some(e),
+        }
     }
     let provs: Vec<&(String, String, &'static str)> = out_props.iter().filter(|p| p.0 == prov_name).collect();
     // `embedded` = the reference actually present in the output bytes (independent parse)
@@ -942,7 +948,9 @@ fn run_case(c: &Case) -> Res {
             spelling = "normalised";
         } else {
             let got: Vec<&String> = provs.iter().map(|p| &p.1).collect();
-            viol(&mut res, c.family, "write-mismatch", &chars, format!("dcterms:provenance written as {:?}, which is not the URL {:?}", got, c.url), json!({"packets": out_packets}));
+            let normalised = url::Url::parse(&c.url).map(|u| u.to_string()).unwrap_or_default();
+            let truncated = got.iter().any(|g| !g.is_empty() && (c.url.starts_with(g.as_str()) || normalised.starts_with(g.as_str())));
+            viol(&mut res, c.family, "write-mismatch", if truncated { "truncated" } else { "altered" }, format!("dcterms:provenance written as {:?}, which is not the URL {:?}", got, c.url), json!({"packets": out_packets}));
         }
         if provs.len() > 1 {
             res.counters.push((format!("out_packet_has_{}_provenance_properties:{}", provs.len(), c.shape), 1));
@@ -956,7 +964,15 @@ fn run_case(c: &Case) -> Res {
     let chars = embedded.as_deref().map(special_chars).unwrap_or(chars);
     res.counters.push((format!("out_packets:{}", out_packets.len().min(3)), 1));
 
-    // ---- preservation
+    // ---- preservation: judged on the packet(s) that carry the new reference (rewriting containers such
+    // as TIFF leave the bytes of the old packet behind as unreferenced data; those must not count)
+    let live: Vec<(String, String, &'static str)> = per_packet.iter().filter(|pp| pp.iter().any(|p| p.0 == prov_name && Some(&p.1) == embedded.as_ref())).flatten().cloned().collect();
+    if !live.is_empty() && live.len() != out_props.len() && c.family == "tiff" {
+        res.counters.push(("dead_or_second_packet_ignored_for_preservation".into(), 1));
+    }
+    // (only for TIFF: elsewhere a second packet is part of the file's content, e.g. an SVG whose bare
+    //  <x:xmpmeta> the handler does not recognise keeps it next to the new packet)
+    let out_props: Vec<(String, String, &'static str)> = if live.is_empty() || c.family != "tiff" { out_props.clone() } else { live };
     let mut lost = Vec::new();
     if out_parse_err.is_none() {
         for (n, v, form) in &in_props {
@@ -974,11 +990,16 @@ fn run_case(c: &Case) -> Res {
         res.counters.push(("properties_compared".into(), in_props.iter().filter(|p| p.0 != prov_name).count() as u64));
     }
     if !lost.is_empty() {
+        let mut forms: BTreeSet<String> = lost.iter().map(|l| format!("{}-form", l["form"].as_str().unwrap_or("?"))).collect();
+        if lost.len() + 1 >= in_props.len() {
+            forms = ["all-properties".to_string()].into_iter().collect();
+        }
+        let cls = if c.shape.contains('@') { shape_cls.clone() } else { forms.into_iter().collect::<Vec<_>>().join("+") };
         viol(
             &mut res,
             c.family,
             "props-not-preserved",
-            &shape_cls,
+            &cls,
             format!("{} of {} pre-existing XMP properties missing/changed after embedding", lost.len(), in_props.len()),
             json!({"lost": lost, "out_packets": out_packets}),
         );
@@ -1047,6 +1068,9 @@ fn run_case(c: &Case) -> Res {
                     );
                 } else if out_parse_err.is_some() {
                     outcome = "url-unjudged-packet-illformed".into();
+                } else if !write_ok && provs.iter().any(|p| p.1 == u2) {
+                    // the reader faithfully returns what was (wrongly) written: the write-mismatch report covers it
+                    outcome = "url-equals-wrongly-written-value".into();
                 } else {
                     outcome = "url-differs".into();
                     viol(&mut res, c.family, "read-mismatch", &format!("{}|{}", c.shape, chars), format!("signed with {:?}, embedded {:?}, reader returned {:?}", c.url, embedded, u2), json!({"returned": u2, "out_packets": out_packets}));
